@@ -177,6 +177,15 @@ impl Ty {
             }
             for (slot, c) in t.children() {
                 out.insert(format!("cpair={}{}>{}", t.class(), slot, c.class()));
+                // references are transparent: also record the pair that results once they are
+                // looked through (`Vec<&Option<T>>` is a sequence of options)
+                let mut eff = c;
+                while let Ty::Ref(i) = eff {
+                    eff = i;
+                }
+                if !std::ptr::eq(eff, c) && !matches!(t, Ty::Ref(_)) {
+                    out.insert(format!("cpair={}{}>{}", t.class(), slot, eff.class()));
+                }
                 walk(c, out);
             }
         }
